@@ -39,7 +39,7 @@ pub fn nested_in_print_order<'e>(e: &'e E, out: &mut Vec<&'e E>) {
     }
 }
 
-fn map_expr(v: &V, f: &dyn Fn(usize) -> Option<usize>) -> V {
+pub fn map_expr(v: &V, f: &dyn Fn(usize) -> Option<usize>) -> V {
     match v {
         V::Expr(i) => match f(*i) {
             Some(o) => V::Expr(o),
@@ -65,7 +65,12 @@ pub struct RefRun {
 
 /// reference evaluation; expression values are renamed to the ordinal of their `{` in the text
 pub fn reference(e: &E, input: &V, resolves: &HashMap<u64, V>, max_steps: u64) -> RefRun {
-    let mut host = RefHost { resolve: resolves.clone(), log: vec![] };
+    reference_h(e, input, resolves, false, max_steps)
+}
+
+/// reference evaluation under a host that also accepts (or declines) external applies
+pub fn reference_h(e: &E, input: &V, resolves: &HashMap<u64, V>, apply_accept: bool, max_steps: u64) -> RefRun {
+    let mut host = RefHost { resolve: resolves.clone(), apply_accept, log: vec![] };
     let order = {
         let mut v = vec![];
         nested_in_print_order(e, &mut v);
@@ -133,7 +138,12 @@ pub struct RunCfg {
 
 /// lex -> parse -> build into a fresh monitored store -> push input -> run to End -> read back
 pub fn real<D: Store + Mk>(src: &str, input: &V, cfg: &RunCfg) -> RealRun<D> {
-    let mut m: Mon<D> = Mon::fresh();
+    real_in(Mon::fresh(), src, input, cfg)
+}
+
+/// same, into a monitored store the caller prepared (native host plumbing, earlier content)
+pub fn real_in<D: Store + Mk>(m: Mon<D>, src: &str, input: &V, cfg: &RunCfg) -> RealRun<D> {
+    let mut m = m;
     m.host = cfg.host.clone();
     m.max_instr = 100_000;
     m.max_data = 2_000_000;
